@@ -238,7 +238,7 @@ pub fn run(tier: &str) -> i32 {
                 "{".into(), "{\"a\":}".into(), deep, deep_obj, "{\"exp\":".into(), "{\"data\":\"\\ud800\"}".into(), "{\"a\":1e999}".into(),
             ];
             for k in ["exp", "nbf", "iat"] {
-                for v in ["0", "1", "1e10", "-1", "1.5", "true", "false", "[]", "[\"2999-01-01T00:00:00Z\"]", "{}", "\"\"", "\" \"", "\"x\"", "null", "\"2999-01-01\"", "\"2999-01-01T00:00:00Zjunk\"", "\"9999-12-31T23:59:59.999999999+23:59\"", "\"0000-01-01T00:00:00-23:59\""] {
+                for v in ["0", "1", "1e10", "-1", "1.5", "true", "false", "[]", "[\"2999-01-01T00:00:00Z\"]", "{}", "\"\"", "\" \"", "\"x\"", "null", "\"2999-01-01\"", "\"2999-01-01T00:00:00Zjunk\"", "\"9999-12-31T23:59:59.999999999+23:59\"", "\"0000-01-01T00:00:00-23:59\"", "\"9999-12-31T23:59:59-23:59\"", "\"9999-12-31T23:59:59-00:01\"", "\"9999-12-31T23:59:59.999999999Z\"", "\"0000-01-01T00:00:00+23:59\"", "\"0000-01-01T00:00:00+00:01\"", "\"0000-01-01T00:00:00Z\"", "\"9999-12-31T23:59:60Z\"", "\"2999-01-01T00:00:00.0000000000000000000000001Z\""] {
                     payloads.push(format!("{{\"{}\":{}}}", k, v));
                 }
             }
